@@ -35,7 +35,13 @@ KNOWN_TOKENS = {
     # kind "mismatch": t = the oracle tolerance under which the mismatch disappears (see compare())
     "depth-cascade-select-ignores-read-enable": lambda kv, kind, t: kind == "mismatch" and "en_stall" in t,
     "depth-cascade-aliases-out-of-range-write": lambda kv, kind, t: kind == "mismatch" and "oor_alias" in t,
+    # write enable = pin AND (condition on read data), write data = pin, read latency >= 2
+    "pin-and-readcond-enable-write-one-cycle-early": lambda kv, kind, t: kind == "mismatch" and "pin_and_cond" in t,
 }
+
+
+def has_pin_and_cond(kv):
+    return any(p["cmode"] == "a" and p["src"] is None for p in parse_ports(kv.get("ports", "")))
 
 
 def parse_ports(s):
@@ -47,6 +53,10 @@ def parse_ports(s):
         p = dict(kind=tok[0], a=int(rest[0]), src=None, op="p")
         if len(rest) > 1 and rest[1].startswith("r"):
             p["src"] = int(rest[1][1:-1]); p["op"] = rest[1][-1]
+        p["cmode"] = "-"
+        if len(rest) > 2 and len(rest[2]) >= 4:      # data dependent write enable  <mode><k><rel><x>
+            c = rest[2]
+            p.update(cmode=c[0], csrc=int(c[1]), crel=c[2], cdata=(c[3] == "d"), cconst=(0 if c[3] == "d" else int(c[3:])))
         ps.append(p)
     return ps
 
@@ -102,7 +112,7 @@ def gen_cases(rng, n_a, n_b, n_dev, tag):
     def line(i, **kw):
         return " ".join(["M", f"id={tag}{i}"] + [f"{k}={v}" for k, v in kw.items()])
 
-    stims = ["mix", "mix", "hot", "b2b", "oor", "rand", "same"]
+    stims = ["mix", "mix", "hot", "b2b", "oor", "rand", "same", "scan"]
     # (a) un-postprocessed circuits: exact model tie, including undefined bits
     for i in range(n_a):
         depth = rng.choice([2, 3, 4, 5, 6, 7, 8, 9]); width = rng.randint(1, 5)
@@ -174,6 +184,40 @@ def gen_large(rng, n, tag):
         out.append(" ".join(["M", f"id={tag}L{i}", f"depth={depth}", f"width={width}", f"type={typ}", f"lat={lat}", "nc=0", f"init={init}",
                              f"iseed={rng.randrange(1000)}", f"clk={clk}", f"dev={dev}", "pp=1", "exact=0", f"ports={ports}",
                              f"ncyc={rng.choice([300, 450, 600])}", f"stim={'alt' if rng.random() < 0.85 else 'rand'}",
+                             f"seed={rng.randrange(10 ** 6)}", "xs=0"]))
+    return out
+
+
+def gen_datadep(rng, n, tag, lats):
+    """write enables computed from read data (saturating accumulators and relatives), latencies 0..8, declared contents,
+    every word read before the pins enable a write (stim=scan): contents must survive start-up untouched"""
+    out = []
+    for i in range(n):
+        depth = rng.choice([8, 8, 2, 3, 5, 6, 9, 12]); width = rng.choice([8, 8, 2, 3, 4, 5, 6])
+        lat = lats[i % len(lats)]
+        mx = (1 << width) - 1
+        const = rng.choice([mx, mx - 1, max(1, mx // 2), rng.randint(1, mx)])
+        mode = rng.choice("oooar"); rel = rng.choice("llllne")
+        cond = f"{mode}0{rel}{'d' if rng.random() < 0.25 else const}"
+        shape = rng.random()
+        if shape < 0.5:
+            ports = f"R0,W0:r0{rng.choice('++^')}:{cond}"            # accumulator: same address
+        elif shape < 0.7:
+            ports = f"R0,W1:r0+:{cond}"                              # read one word, accumulate into another
+        elif shape < 0.85:
+            ports = f"R0,W{rng.choice('01')}:p:{cond}"               # plain data, enable from read data
+        else:
+            ports = f"R0,W0:r0+:{cond},R1"
+        if ":p:a" in ports and lat >= 2:
+            ports = ports.replace(":p:a", ":p:o")                    # recorded finding pin-and-readcond-enable-write-one-cycle-early (corpus case)
+        typ = "D" if lat == 0 or rng.random() < 0.6 else "M"
+        dev = "none" if rng.random() < 0.75 else rng.choice(INTEL + XILINX)
+        if ports.endswith(",R1") and lat >= 3:
+            lat = 2                                                  # known finding rmw-ringbuffer-too-many-read-ports
+        out.append(" ".join(["M", f"id={tag}D{i}", f"depth={depth}", f"width={width}", f"type={typ}", f"lat={lat}", "nc=0",
+                             f"init={rng.choice(['fill', 'fill', 'zero', 'part'])}", f"iseed={rng.randrange(1000)}",
+                             f"clk={rng.choice(['PN', 'PN', 'PS', '-S'])}", f"dev={dev}", f"pp={1 if rng.random() < 0.85 else 0}", "exact=0",
+                             f"ports={ports}", f"ncyc={rng.choice([40, 60, 90])}", f"stim={'scan' if rng.random() < 0.8 else 'hot'}",
                              f"seed={rng.randrange(10 ** 6)}", "xs=0"]))
     return out
 
@@ -341,6 +385,8 @@ def oracle(kv, hdr, lines, stats, tolerate=()):
                 if p["kind"] == "V":
                     e2 = val(wr[q]); q += 1
                     en = 0 if (en == 0 or e2 == 0) else (None if (en is None or e2 is None) else 1)
+                if p["cmode"] in "or":
+                    en = None
                 if en != 0:
                     allw.append(val(addrs[p["a"]]))
         for p in ports:
@@ -392,6 +438,20 @@ def oracle(kv, hdr, lines, stats, tolerate=()):
                 if p["kind"] == "V":
                     e2 = val(wr[wpos]); wpos += 1
                     en = 0 if (en == 0 or e2 == 0) else (None if (en is None or e2 is None) else 1)
+                if p["cmode"] != "-":
+                    r = rds[p["csrc"]]
+                    x = din if p["cdata"] else p["cconst"]
+                    if r is ANY or r is None or x is None:
+                        cnd = None
+                    else:
+                        cnd = int({"l": r < x, "e": r == x, "n": r != x}[p["crel"]])
+                    stats["data_dependent_enable_" + {None: "undefined", 0: "low", 1: "high"}[cnd]] += 1
+                    if p["cmode"] == "o":
+                        en = cnd
+                    elif p["cmode"] == "a":
+                        en = 0 if (en == 0 or cnd == 0) else (None if (en is None or cnd is None) else 1)
+                    else:
+                        en = 1 if (en == 1 or cnd == 1) else (None if (en is None or cnd is None) else 0)
                 if en is None:
                     stats["x_en"] += 1
                 if p["src"] is not None:
@@ -433,8 +493,8 @@ def oracle(kv, hdr, lines, stats, tolerate=()):
                                 sub = (sub - 1) & a
                 writes.append((a, data))
         if f["tag"] == "p":
-            if any(p["kind"] == "A" for p in ports):
-                mem[0] = None        # reset logic may have taken the port over
+            if any((p["kind"] == "A" or p["cmode"] in "or") and p["src"] is None for p in ports):
+                mem[0] = None        # a port writing during reset: reset logic may have taken the port over
             prev_written = set()
             continue
         prev_written = {w[0] for w in writes if w[0] is not None}
@@ -531,6 +591,8 @@ def compare(agg, log, model, known_tokens, expect=None):
         big = int(kv["depth"]) > 16
         key = f"pp={kv['pp']} dev={kv['dev']} type={kv['type']} L={cs['hdr']['L']}" + (" large" if big else "")
         agg.cfg[key] += 1
+        if any(p["cmode"] != "-" for p in parse_ports(kv["ports"])):
+            agg.cfg[f"data-dependent write enable pp={kv['pp']} L={cs['hdr']['L']} stim={kv['stim']}"] += 1
         mp = cs["hdr"].get("map", "-")
         if mp != "-":
             for tok in mp.split(","):
@@ -565,6 +627,12 @@ def compare(agg, log, model, known_tokens, expect=None):
                             agg.known.append((t, cs["line"], f"cycle {t0} port {k0} expected {e0} observed {o0}"))
                         excused = True
                     break
+        if bad and pp and not excused and has_pin_and_cond(kv) and int(cs["hdr"]["L"]) >= 2:
+            tok = "pin-and-readcond-enable-write-one-cycle-early"
+            if tok in known_tokens:
+                t0, k0, e0, o0 = bad[0]
+                agg.known.append((tok, cs["line"], f"cycle {t0} port {k0} expected {e0} observed {o0}"))
+                excused = True
         if bad and not excused:
             t, k, e, o = bad[0]
             agg.orc.append(dict(case="M " + cs["line"], cycle=t, read_port=k, expected=e, observed=o, header=cs["hdr"],
@@ -699,7 +767,9 @@ def main():
     shards = []
     for i in range(nshards):
         rng = random.Random(seed * 7919 + i * 104729 + (1 if tiername == "quick" else 2))
-        shards.append(gen_large(rng, n_large, f"s{i}_") + gen_cases(rng, n_a, n_b, n_dev, f"s{i}_"))
+        lats = [5, 6, 7, 3, 0, 1, 2, 4, 8]
+        shards.append(gen_large(rng, n_large, f"s{i}_") + gen_datadep(rng, 18 if tiername == "quick" else 180, f"s{i}_", lats[i % 3:] + lats[:i % 3])
+                      + gen_cases(rng, n_a, n_b, n_dev, f"s{i}_"))
     tmo = 150 if tiername == "quick" else 900
     with ThreadPoolExecutor(max_workers=min(nshards, V.NCPU)) as ex:
         futs = [ex.submit(run_batch, exe, drv, sh, f"{tiername}{i}", tmo) for i, sh in enumerate(shards)]
@@ -844,7 +914,9 @@ def main():
         "MemDefs.v is a hand transcription of Node_MemPort.cpp:168-339; agreement is established by the sampled cycle-exact diff only",
         "post-processing (MemoryDetector.cpp, RegisterRetiming.cpp) and device patterns are NOT verified: only their simulated results are compared with the array spec; "
         "device primitives are simulated through the generic memory group (exportOverride), i.e. vendor simulation models are not exercised",
-        "the first L-1 outputs after reset (register pre-history) are not compared; behaviour while the reset is asserted is not part of the spec "
+        "data dependent write enables (compare of the read word with a constant / the write data, alone or AND/OR-ed with a pin) are computed by the drivers "
+        "with Node_Compare / Node_Logic semantics (undefined as soon as an operand bit is undefined; 0 dominates AND, 1 dominates OR)",
+        "the first L-1 outputs after reset (register pre-history) are not compared, but memory CONTENTS are: stim=scan reads every word before the pins enable a write; behaviour while the reset is asserted is not part of the spec "
         "(an always-enabled write port may or may not write word 0 during reset)",
         "noConflicts memories: a read meeting a write of the same cycle and two writes meeting are treated as legitimately undefined",
         "addresses wider/narrower than log2(depth) (frontend zero-extends / truncates) and mixed port widths are not generated; single clock only",
